@@ -61,6 +61,9 @@ pub const VALID_EXPRS: &[&str] = &[
     "<math><mi>a</mi><mo>&#x2260;</mo><mi>b</mi><mo>&#x21D2;</mo><mi>c</mi><mo>&#x2248;</mo><mi>d</mi></math>",
     "<math><msup><mrow><mo>(</mo><mi>x</mi><mo>+</mo><mi>y</mi><mo>)</mo></mrow><mi>n</mi></msup><mo>=</mo><munderover><mo>&#x2211;</mo><mrow><mi>k</mi><mo>=</mo><mn>0</mn></mrow><mi>n</mi></munderover><mrow><mo>(</mo><mfrac linethickness='0'><mi>n</mi><mi>k</mi></mfrac><mo>)</mo></mrow><msup><mi>x</mi><mi>k</mi></msup><msup><mi>y</mi><mrow><mi>n</mi><mo>-</mo><mi>k</mi></mrow></msup></math>",
     "<math><mi>x</mi><mo>'</mo><mo>'</mo><mo>+</mo><msup><mi>y</mi><mo>&#x2032;</mo></msup></math>",
+    // 48: author ids on a token that is lifted into a new mmultiscripts (empty base of the following script)
+    "<math><mi id='x'>X</mi><msup id='s'><mrow/><mn id='two'>2</mn></msup></math>",
+    "<math><mrow id='r'><msub id='sb'><mrow/><mn id='pre'>2</mn></msub><mi id='h'>H</mi><msup><mrow/><mo id='pl'>+</mo></msup></mrow></math>",
 ];
 
 /// Index of an expression with a character that only the *full* Unicode tables contain
